@@ -73,7 +73,11 @@ def Book.step (b : Book) : Obs → Book
       let closing := b.closedQueues.contains q
       let closedNow := b.closedDone.contains q
       ks.foldl (fun b k => b.setJob k { b.job k with q := q, addCalled := true, batch := true, addRet := some true, maybeRejected := closing, rejected := closedNow }) b
-    | .qclose q => { b with closedQueues := q :: b.closedQueues }
+    | .qclose q =>
+      -- items of an AddAll on q that is still running may be refused (the API does not report which)
+      let racing := b.openCalls.foldl (fun acc c => match c.2 with | .addAll q' _ ks _ => if q' == q then acc ++ ks else acc | _ => acc) ([] : List Nat)
+      let b := racing.foldl (fun b k => b.setJob k { b.job k with maybeRejected := true }) b
+      { b with closedQueues := q :: b.closedQueues }
     | .jclose k => b.setJob k { b.job k with closeCalled := true }
     | .purge q =>
       { b with jobs := b.jobs.map (fun (k, f) => if f.q == q && f.addCalled && f.entered == 0 then (k, { f with maybePurged := true }) else (k, f)) }
@@ -346,15 +350,25 @@ def cancelledOrClosing (b : Book) (k : Nat) : Bool :=
   let j := b.job k
   j.closedNil || j.maybePurged || j.maybeRejected || b.anyOpen (fun c => c == .jclose k)
 
-def onEvent (_ : Unit) (b : Book) (o : Obs) (_ : Book) : Unit × List Viol :=
+def onEvent (bs : List (Nat × List Nat)) (b : Book) (o : Obs) (_ : Book) : List (Nat × List Nat) × List Viol :=
   match o with
+  | .call _ _ (.addAll _ bid ks _) => (upsert bs bid ks, [])
   | .ret _ _ _ (.jwait k _) =>
     let j := b.job k
-    ((), if j.exited == 0 && !cancelledOrClosing b k then [s!"Wait on job {k} returned before its worker function returned"] else [])
+    (bs, if j.exited == 0 && !cancelledOrClosing b k then [s!"Wait on job {k} returned before its worker function returned"] else [])
   | .ret _ _ _ (.jresult k _ _) =>
     let j := b.job k
-    ((), if j.exited == 0 && !cancelledOrClosing b k then [s!"Result/Err on job {k} returned before its worker function returned (no Close() on it has succeeded or is in progress)"] else [])
-  | _ => ((), [])
+    (bs, if j.exited == 0 && !cancelledOrClosing b k then [s!"Result/Err on job {k} returned before its worker function returned (no Close() on it has succeeded or is in progress)"] else [])
+  | .ret _ _ _ (.gwait bid _) =>
+    -- "Wait on a batch handle returns only after the worker function has returned for every item of the batch":
+    -- an item that has started and not finished was certainly accepted and cannot be cancelled any more; an item that
+    -- has not started is excused only if it may have been cancelled, purged or refused
+    let ks := lookupD [] bs bid
+    let running := ks.filter (fun k => (b.job k).entered > (b.job k).exited)
+    let waiting := ks.filter (fun k => (b.job k).entered == 0 && !cancelledOrClosing b k)
+    (bs, (if running.isEmpty then [] else [s!"Wait on batch {bid} returned while the worker function was still running for items {running}"])
+      ++ (if waiting.isEmpty then [] else [s!"Wait on batch {bid} returned before items {waiting} had started"]))
+  | _ => (bs, [])
 
 def atEnd (p : Params) (b : Book) (fin : Option Final) (e : EndInfo) : List Viol :=
   if !e.quiescent || e.crashed || b.crashed then [] else
@@ -371,7 +385,7 @@ def atEnd (p : Params) (b : Book) (fin : Option Final) (e : EndInfo) : List Viol
     | _ => vs) []
 
 def check (p : Params) (tr : List Obs) (e : EndInfo) : List Viol :=
-  let (_, b, vs) := foldCheck () onEvent tr
+  let (_, b, vs) := foldCheck ([] : List (Nat × List Nat)) onEvent tr
   vs ++ atEnd p b (finalOf tr) e
 end C05
 
